@@ -139,18 +139,39 @@ fn e_machine(name: &str) -> (u16, bool, bool) {
 
 impl Check for C20 {
     fn directed(&self) -> u64 {
-        7
+        21
     }
     fn finite(&self) -> bool {
         true
     }
     fn run(&mut self, ctx: &mut Ctx, _rng: &mut Rng, case: u64) {
-        if case >= 7 {
+        if case >= 21 {
             return;
         }
         let archs = all_architectures();
-        let arch = archs[case as usize].as_ref();
+        let arch = archs[(case % 7) as usize].as_ref();
         let name = arch.name().to_string();
+        // What a translator emits must not depend on which other translators this process used before: cases 0-6
+        // sweep an architecture in a process that lifted nothing else, cases 7-13 after every other architecture has
+        // lifted something (in table order), cases 14-20 likewise in the reverse order. The sweep is repeated at the
+        // end, behind one more round of the others, and must observe the same scalars.
+        let others: Vec<usize> = match case / 7 {
+            0 => Vec::new(),
+            1 => (0..7).filter(|i| *i != (case % 7) as usize).collect(),
+            _ => (0..7).rev().filter(|i| *i != (case % 7) as usize).collect(),
+        };
+        let warm = |ctx: &mut Ctx| {
+            for i in &others {
+                let o = archs[*i].as_ref();
+                let mut sink = BTreeSet::new();
+                for bytes in corpus(o).iter().take(6) {
+                    ctx.eval();
+                    collect_scalars(o, bytes, &mut sink);
+                }
+            }
+        };
+        warm(ctx);
+        ctx.class(&format!("{}/history{}", name, case / 7));
         let cc = arch.calling_convention();
         let mut viol = |ctx: &mut Ctx, kind: &str, what: String, detail: serde_json::Value| {
             ctx.violation(&format!("{}:{}:{}", name, kind, what), json!({"architecture": name, "detail": detail}));
@@ -165,6 +186,29 @@ impl Check for C20 {
             }
         }
         ctx.count_n(&format!("{}.corpus_instructions_lifted", name), lifted);
+        {
+            warm(ctx);
+            let mut again: BTreeSet<(String, usize)> = BTreeSet::new();
+            let mut lifted2 = 0;
+            for bytes in corpus(arch) {
+                ctx.eval();
+                if collect_scalars(arch, &bytes, &mut again) {
+                    lifted2 += 1;
+                }
+            }
+            if again != observed || lifted2 != lifted {
+                ctx.violation(
+                    &format!("{}:lifted_scalars_depend_on_what_was_lifted_before", name),
+                    json!({"architecture": name, "lifted_first": lifted, "lifted_again": lifted2,
+                           "only_first": observed.difference(&again).take(8).map(|(n, b)| format!("{}:{}", n, b)).collect::<Vec<_>>(),
+                           "only_again": again.difference(&observed).take(8).map(|(n, b)| format!("{}:{}", n, b)).collect::<Vec<_>>()}),
+                );
+            }
+        }
+        // every instruction of the corpus is one the translator is documented to lift
+        if lifted != corpus(arch).len() as u64 {
+            ctx.count_n(&format!("{}.corpus_instructions_not_lifted", name), corpus(arch).len() as u64 - lifted);
+        }
         let by_name: BTreeMap<String, BTreeSet<usize>> = observed.iter().fold(BTreeMap::new(), |mut m, (n, b)| {
             m.entry(n.clone()).or_default().insert(*b);
             m
